@@ -85,7 +85,7 @@ def prove_equal(g, x, y, timeout, workdir, st, assume=()):
 
 def rebuild(g, repl, roots):
     """new graph where node n is replaced by literal repl[n]; returns (new graph, mapped roots)"""
-    ng = aig.Graph(g.affine)
+    ng = aig.Graph(g.affine, g.canon_sums)
     new = [None] * g.size()
     new[0] = 0
     for n in g.inputs:      # inputs first and in the same order
